@@ -277,6 +277,94 @@ def api_vs_oracle(run, ir, zm, m, nper, mask, deviation):
         run.unknown(key, f"solver {r}/{r2}")
 
 
+def api_options(run, ir, zm, m, nper, mask, deviation):
+    """output options must not change the numbers: asking only for the update step (return_=("update",)) gives the update of the full run;
+    a two-variant model filtered with check_singularity=True gives, in each variant, the single-variant result"""
+    ms = _mask_str(mask, len(zm.mvars), nper)
+    start = ir.qq(2020, 1)
+    span = start >> (start + nper - 1)
+    db = _data_db(ir, zm, start, nper, mask)
+    with kf.KalmanLift(ir, zm.mvars) as L0, S.Path() as path0:
+        full = m.kalman_filter(db, span, deviation=deviation)
+    names = [n for n in list(zm.tvars) + list(zm.tshocks) if n in full["update_med"]]
+
+    def cells(out, kind, variant=0):
+        cs = []
+        for n in names:
+            ser = out[kind][n]
+            for k in range(nper):
+                per = start + k
+                if ser.start is None or per < ser.start or per > ser.end or ser.data.shape[1] <= variant:
+                    cs.append(None)
+                else:
+                    cs.append(_cell_term(ser.data[per - ser.start, variant]))
+        return cs
+    base = cells(full, "update_med")
+    for label, call in (("return_=('update',)", lambda mm: mm.kalman_filter(db, span, deviation=deviation, return_=("update",))),
+                        ("return_=('predict','update')", lambda mm: mm.kalman_filter(db, span, deviation=deviation, return_=("predict", "update")))):
+        key = f"options:{zm.name}:dev={deviation}:mask={ms}:{label}"
+        case = dict(kind="api_option", model=zm.name, deviation=deviation, nper=nper, mask=ms, option=label, values={})
+        try:
+            with kf.KalmanLift(ir, zm.mvars) as L1, S.Path() as path1:
+                part = call(m)
+        except S.SymbolicBranchError:
+            raise
+        except Exception as exc:
+            run.counterexample(key, f"kalman:option_raises:{zm.name}", f"kalman_filter(..., {label}) raises {type(exc).__name__}: {str(exc)[:120]}", case)
+            continue
+        got = cells(part, "update_med")
+        eqs = []
+        bad = None
+        for a, b in zip(got, base):
+            if (a is None) != (b is None):
+                bad = "a cell is missing on one side"
+                break
+            if a is not None:
+                eqs.append(a == b)
+        if bad:
+            run.counterexample(key, f"kalman:option:{zm.name}", bad, case)
+            continue
+        res, mdl = run.prove(key, z3.And(*eqs), [path0.condition(), path1.condition()], timeout_ms=60000)
+        if res == "unsat":
+            run.ok(key)
+        elif res == "sat":
+            vals = model_values(mdl, sorted(L0.cap["syms"]))
+            run.counterexample(key, f"kalman:option:{zm.name}", f"{label} changes the updated means", dict(case, values={n_: [v.numerator, v.denominator] for n_, v in vals.items()}))
+        else:
+            run.unknown(key, f"solver {res}")
+    # two variants with the singularity check switched on
+    key = f"options:{zm.name}:dev={deviation}:mask={ms}:two variants, check_singularity=True"
+    case = dict(kind="api_option", model=zm.name, deviation=deviation, nper=nper, mask=ms, option="variants_singularity", values={})
+    m2 = m.copy()
+    m2.alter_num_variants(2)
+    try:
+        with kf.KalmanLift(ir, zm.mvars) as L2, S.Path() as path2:
+            two = m2.kalman_filter(db, span, deviation=deviation, check_singularity=True)
+    except S.SymbolicBranchError:
+        raise
+    except Exception as exc:
+        run.counterexample(key, f"kalman:option_raises:{zm.name}", f"two-variant kalman_filter(check_singularity=True) raises {type(exc).__name__}: {str(exc)[:120]}", case)
+        return
+    eqs, bad = [], None
+    for variant in (0, 1):
+        for a, b in zip(cells(two, "update_med", variant), base):
+            if (a is None) != (b is None):
+                bad = f"variant {variant}: a cell is missing on one side"
+                break
+            if a is not None:
+                eqs.append(a == b)
+    if bad:
+        run.counterexample(key, f"kalman:option:{zm.name}", bad, case)
+        return
+    res, mdl = run.prove(key, z3.And(*eqs), [path0.condition(), path2.condition()], timeout_ms=60000)
+    if res == "unsat":
+        run.ok(key)
+    elif res == "sat":
+        run.counterexample(key, f"kalman:option:{zm.name}", "a variant of the two-variant run differs from the single-variant run", case)
+    else:
+        run.unknown(key, f"solver {res}")
+
+
 # ------------------------------------------------------------------------------------------
 # (B) kernel-level parametric equivalence with symbolic matrices
 # ------------------------------------------------------------------------------------------
@@ -531,6 +619,16 @@ def main(run):
                     run.unknown(f"api:{zm.name}:{_mask_str(mask, len(zm.mvars), nper)}", exc)
                 except Exception as exc:
                     run.error(f"api:{zm.name}:{_mask_str(mask, len(zm.mvars), nper)}", exc)
+    for name in models:
+        zm, m = _model(ir, name)
+        masks = _masks(len(zm.mvars), nper, run.tier)
+        for mask in (masks[:1] + masks[2:3] if run.tier == "quick" else masks[:4]):
+            try:
+                api_options(run, ir, zm, m, nper, mask, False)
+            except S.SymbolicBranchError as exc:
+                run.unknown(f"options:{zm.name}:{_mask_str(mask, len(zm.mvars), nper)}", exc)
+            except Exception as exc:
+                run.error(f"options:{zm.name}:{_mask_str(mask, len(zm.mvars), nper)}", exc)
     shapes = [(1, 1), (2, 1)] if run.tier == "quick" else [(1, 1), (2, 1), (1, 2)]
     for (n, mm) in shapes:
         for mask_t in itertools.product((True, False), repeat=2):
@@ -572,6 +670,29 @@ def replay(case):
     start = ir.qq(2020, 1)
     span = start >> (start + nper - 1)
     db = _data_db(ir, zm, start, nper, mask, values=vals)
+    if case["kind"] == "api_option":
+        full = m.kalman_filter(db, span, deviation=deviation)
+        opt = case["option"]
+        try:
+            if opt == "variants_singularity":
+                m2 = m.copy(); m2.alter_num_variants(2)
+                part = m2.kalman_filter(db, span, deviation=deviation, check_singularity=True)
+            elif "predict" in opt:
+                part = m.kalman_filter(db, span, deviation=deviation, return_=("predict", "update"))
+            else:
+                part = m.kalman_filter(db, span, deviation=deviation, return_=("update",))
+        except Exception as exc:
+            return True, f"kalman_filter with {opt} raises {type(exc).__name__}: {exc}"
+        worst = 0.0
+        for n in list(zm.tvars) + list(zm.tshocks):
+            if n not in full["update_med"]:
+                continue
+            a = np.asarray(full["update_med"][n].get_data(span), dtype=float)
+            b = np.asarray(part["update_med"][n].get_data(span), dtype=float)
+            for col in range(b.shape[1]):
+                d = np.nanmax(np.abs(a[:, 0] - b[:, col])) if a.size else 0.0
+                worst = max(worst, float(d))
+        return worst > 1e-8, f"updated means differ by {worst!r}"
     if case["kind"] == "api_raises":
         try:
             m.kalman_filter(db, span, deviation=deviation)
